@@ -42,7 +42,7 @@ COMMON = dict(
     p_wrap=0.4,
     max_nodes=12,
     item_fault_modes=["error", "unset", "falsyerror"],
-    exc_cls=["exc", "exc", "falsy", "frozen", "tasky"],
+    exc_cls=["exc", "exc", "falsy", "frozen", "tasky", "typed"],
     try_kinds=["exc", "exc", "none"],
     w_stmt=dict(sync=2.2, raise_=0.6, try_=1.0, with_=1.6, ret=0.3, orphan=0.3, read=0.3),
     w_leaf=dict(call=6, item=5, err=0.4, junk=0.08, lazy=0.5, again=0.4, dbg=0.0, const=0.8),
@@ -260,8 +260,17 @@ def run_unit(unit, progress):
             if "max_stack" in opts:
                 asynq.debug.options.MAX_TASK_STACK_SIZE = opts["max_stack"]
                 asynq.debug.options.DUMP_PRE_ERROR_STATE = False
+            run_how = how
+            if how == "value" and rnd.random() < 0.35 and rt.style_of(prog.get("root", 0)) in ("asynq", "method", "proxy", "classmethod", "staticmethod", "explicit"):
+                # the task object is built first (nothing of a generator task's body runs then), the thread's
+                # scheduler is thrown away with the public scheduler.reset() - it is clean at this point - and
+                # only then the task is computed: by whatever scheduler the thread has NOW
+                rt.prebuilt = harness.make_task(rt.style_of(prog.get("root", 0)), rt, lang.Frame(prog.get("root", 0), (), None))
+                asynq_scheduler.reset()
+                run_how = "prebuilt"
+                inc("computations_of_a_task_built_before_the_scheduler_was_replaced")
             try:
-                out = rt.run(how, fresh_scheduler=False)
+                out = rt.run(run_how, fresh_scheduler=False)
             finally:
                 asynq.debug.options.MAX_TASK_STACK_SIZE = old_max
                 asynq.debug.options.DUMP_PRE_ERROR_STATE = old_dump
